@@ -9,6 +9,11 @@ type stringInput struct {
 }
 
 func newStringInput(s string) comb.Input {
+	// There is no input to read from an empty string.
+	if len(s) == 0 {
+		return nil
+	}
+
 	return &stringInput{
 		pos:   0,
 		runes: []rune(s),
